@@ -37,7 +37,7 @@ ASSUMPTIONS = [
 
 ERRORS = ["EPIPE", "ECONNRESET", "TIMEOUT"]
 KINDS = ["doc", "menu", "error", "info", "dirinfo", "zipmember", "mboxfolder", "mboxmsg", "html", "maildirmsg", "gzdoc", "script",
-         "pctdoc", "pctmenu", "pcterror"]
+         "pctdoc", "pctmenu", "pcterror", "ioerror"]
 FORMS = ["gopher", "gophers", "gplus", "http", "https", "head", "wap", "gemini", "spartan"]
 
 
@@ -103,6 +103,9 @@ def _spec(size, nmenu):
     # names that are format-string / template syntax (a selector ends up in log lines and error replies)
     spec.append(["100% %s {0}.txt", "f", "percent\n" * 80])
     spec.append(["rate%d/in.txt", "f", "e\n"])
+    # a document whose reading fails on the SERVER's side (EIO): the reply is an error page built from that error - and the
+    # client may fail while that page is being written
+    spec.append(["mem.bin", "l", "/proc/self/mem"])
     return spec
 
 
@@ -113,7 +116,7 @@ def _request(kind, form):
     sel = {"doc": b"/big.bin", "menu": b"/menu", "error": b"/missing", "info": b"/big.bin", "dirinfo": b"/menu",
            "zipmember": b"/arch.zip/m.txt", "mboxfolder": b"/box.mbox", "mboxmsg": b"/box.mbox|/MBOX-MESSAGE/2",
            "html": b"/page.html", "maildirmsg": b"/md|/MAILDIR-MESSAGE/1", "gzdoc": b"/big.txt.gz", "script": b"/out.sh",
-           "pctdoc": b"/100% %s {0}.txt", "pctmenu": b"/rate%d", "pcterror": b"/missing 5% %(x)s"}[kind]
+           "pctdoc": b"/100% %s {0}.txt", "pctmenu": b"/rate%d", "pcterror": b"/missing 5% %(x)s", "ioerror": b"/mem.bin"}[kind]
     if kind == "info":
         if fam != "gplus":
             return None
@@ -439,6 +442,8 @@ def check_case(case, ctx):
         allowed = {errcls}
         if kind in ("error", "pcterror"):
             allowed.add("FileNotFound")
+        if kind == "ioerror":
+            allowed.add("OSError")  # the server-side failure itself may be logged too, next to the client's
         if kind == "unclaimed":
             allowed.add("AttributeError")  # today's code logs that nobody claimed the request as an AttributeError
         for k in range(0, n + 1):
